@@ -21,13 +21,13 @@ T = {
         , 'reference shares numpy only; 0.136 % constant offset of the code (4.77783352 vs eta/8pi^2) is inside the 1 % budget; deviations above 1 % are the known finding near-field-finite-difference-step only if the reported field equals the same finite difference (H) / virtual-dipole voltage (E) formed from the exact potentials, recomputed for the point at hand; requests in whole numbers (python ints), corpus antennas'),
  'C05': ( 'rigid motion and scaling invariance, option route vs coordinate route'
         , 'metamorphic oracle over fresh runs: transformed model via --geo-* options vs motion written into coordinates vs untransformed; current field, impedances, rotated pattern samples'
-        , 'tolerance by condition number as stated; third route through the classes of the library (whole numbers as ints, container tags computed before / after / in the middle); gain deviations on the scale of the main beam with the conditioning of the net input power; known finding quadrature-order-on-threshold classified by an experiment with the 8-point rule everywhere; corpus antennas and whole-number lattices'),
+        , 'tolerance by condition number as stated; third route through the classes of the library (whole numbers as ints, container tags computed before / after / in the middle); gain deviations on the scale of the main beam with the conditioning of the net input power; known finding quadrature-order-on-threshold classified by an experiment with the 8-point rule everywhere; corpus antennas and whole-number lattices; pairs of wires that nearly meet, turned onto a space diagonal and scaled; table request of the original against single requests of the moved antenna'),
  'C06': ( 'description independence (reversal, permutation, retagging, collinear splitting), mirror symmetry'
         , 'metamorphic oracle over fresh runs with description-invariant observables (current field by position, impedance by location, near field at fixed points, gain)'
         , 'inside the stated domain (validity filter: unconnected wires >= 2 segments apart, wires on a common neighbour >= 0.5 segments apart, one wire per ground point); field pattern compared as amplitude relative to the main beam; known findings classified by mechanism, each by an experiment made on the spot (feed at a current minimum, distributed load on a junction of three, exact kernel on a short neighbour, junction ends that meet only within the matching tolerance on thick wires); collinear objects with bitwise equal segment lengths; corpus antennas'),
  'C07': ( 'linearity in source voltages; source data = V/I, Re(VI*)/2'
         , 'algebraic oracle over fresh and reused model objects (scaling, superposition with others at 0 V / absent / re-registered on the same object) + solve-residual and power contracts + SOURCE DATA block parsed back'
-        , 'numpy.linalg trusted; tolerance 1e-9 * cond'),
+        , 'numpy.linalg trusted; tolerance 1e-9 * cond; contract compute_rhs.sources (every source enters the right-hand side with its voltage, doubled on the ground plane, and nothing else) evaluated in the workloads of all checks'),
  'C08': ( 'loads as series circuit elements'
         , 'exact rational circuit reference (fractions) for RLC/trap/Laplace, README closed forms with scaled Bessel functions for skin effect and insulation, feed-impedance difference with/without load, neutral elements, monopole = half dipole cross-check'
         , 'scipy.special trusted for Bessel functions; models built through the command line and through the classes of the library (load objects created before the geometry is scaled); repeated solves on one object; load kinds by number (command line) against the same elements registered through the library'),
@@ -48,7 +48,7 @@ T = {
         , 'taper requests the code rejects (fallback to equal segments) are counted, not judged; wires over a ground plane with ends inside / outside the ground distance; the 65 antennas of /repo/test; a maximum alone through the library'),
  'C14': ( 'no history dependence, no run-to-run variation'
         , 'history + executable model: random operation sequences on one object vs a fresh object per step (state and cache coherence); frequency sweep vs single runs; byte comparison of stdout and files over fresh interpreters with varied PYTHONHASHSEED / allocator / heap layout'
-        , 'fresh object built by the same code is the model of "pure function of (spec, f)"; frequency steps of parts per million, repeated requests at other levels / distances, compute bursts; the same model through the command line and through the library in several call orders (routes) must give identical matrices, currents and reports; two live objects of different models computed in turns; report sections with and without the other field request; sweep steps with the wire radius on the thin-wire limit against single runs at f0 + k * inc'),
+        , 'fresh object built by the same code is the model of "pure function of (spec, f)"; frequency steps of parts per million, repeated requests at other levels / distances, compute bursts; the same model through the command line and through the library in several call orders (routes) must give identical matrices, currents and reports; two live objects of different models computed in turns; report sections with and without the other field request; sweep steps with the wire radius on the thin-wire limit against single runs at f0 + k * inc; a field asked for between a frequency change and the next solve is refused or that of the new frequency (stale)'),
  'C15': ( 'option file round trip'
         , 'model equality between M and main(as_cmdline(M)) (objects, taper, transforms, sources, per-pulse load impedance, media), feed impedance within printed precision, second-generation text fixed point'
         , 'the reader is the program itself'),
